@@ -1,4 +1,5 @@
 import Driver.Proto
+import RsModel.Model.EqHash
 /-!
 # `rsdriver`: reads protocol requests on stdin, answers on stdout, one line each.
 State: named trees and the store of cached maps (persisting until `reset`).
@@ -43,6 +44,20 @@ def step (d : DState) (line : String) : DState × String :=
       let r := s.map ⟨c, f⟩ d.store
       ({ d with store := r.2 }, showOpt showSMap r.1)
     | _, _, _ => bad
+  | "feed" :: n :: rest =>
+    match d.tree? n, pList (fun ts => do let (i, ts) ← pNat ts; let (v, ts) ← pNat ts; pure ((i, v), ts)) rest with
+    | some s, some (tbl, []) =>
+      let f : Nat → Nat := fun i => ((tbl.find? (·.1 == i)).map (·.2)).getD 0
+      (d, showList showCall (s.callsT f))
+    | _, _ => bad
+  | ["eq", n, m] =>
+    match d.tree? n, d.tree? m with
+    | some a, some b => (d, showBool (a.eqv b))
+    | _, _ => bad
+  | ["clonecheck", n] =>
+    match d.tree? n with
+    | some a => (d, if a.eqv a then "15" else "14")
+    | none => bad
   | "enc" :: c :: rest =>
     match pBool [c], pList pMapping rest with
     | some (c, _), some (ms, []) => (d, showText (encodeWith c ms))
